@@ -76,7 +76,10 @@ def run(ctx):
     except Exception as e:                      # fail-closed: the broken tie is reported below
         genfail = repr(e)
         ctx.cov["generated"]["gen_reader"] = genfail
+    import time as _t
+    t0 = _t.time()
     res = prove(ctx)
+    ctx.cov["phase_s"] = {"prove": round(_t.time() - t0, 1)}
     if genfail:
         res["ok"] = False
         res["build"].excerpt = "translator gen_reader failed (fail-closed): " + genfail
@@ -98,8 +101,10 @@ def run(ctx):
                 ig = rng.sample(KINDS, rng.randrange(1, 3))
                 reqs.append(("read_pil_model", [text, ig]))
                 systems[text + "\0" + ",".join(ig)] = {"text": text, "stmts": stmts, "ignore": ig}
-            if k < (60 if quick else 1500):
-                ocases.append(systems[text])
+            if k < (40 if quick else 500):
+                oc = dict(systems[text])
+                oc["ignore_kinds"] = rng.sample(KINDS, 2)
+                ocases.append(oc)
         diffs += correspond(ctx, "consistent-systems", reqs)
         # 2. small scope: every short document over the pool
         pool = [POOL[i] for i in POOL_QUICK] if quick else POOL
@@ -119,8 +124,10 @@ def run(ctx):
                 reqs.append(("read_pil_model", [text, None]))
             for kind, text in c16mod.token_mutations(rng, valid, 3 if quick else 10):
                 reqs.append(("read_pil_model", [text, None]))
-        reqs += [("read_pil_model", [t, None]) for t in ("X = +\n", "structure S = + : .\n", "length a = 5\nstrand s = a\nstructure S = + : .\n",
-                                                        "length a = 5\nX = a +\nY = + a\nZ = a + + a\n", "sequence a = acgt\n")]
+        reqs += [("read_pil_model", [t, None]) for t in ("X = +\n", "A = + +\n", "structure S = + : .\n", "structure X = + : +\n",
+                                                        "length a = 5\nstrand s = a\nstructure S = + : .\n",
+                                                        "length a = 5\nX = a +\nY = + a\nZ = a + + a\n", "sequence a = acgt\n",
+                                                        "length a = 0\nX = a a*\nlength a = 3\n", "length a* = 4\nX = a^ a^*\n")]
         diffs += correspond(ctx, "fault-streams", reqs)
         # 4. user classes in the reader slots, a document read and held before, registries, release
         ctab = run_impl([("registry_classes", None)])[0]
@@ -140,9 +147,12 @@ def run(ctx):
                     text = rng.choice(cs)[1]
             reqs.append(("read_pil_cfg", [ctab, cnames, cfgs, prelude, text, None]))
         diffs += correspond(ctx, "configured-classes", reqs)
+    ctx.cov["phase_s"]["correspond"] = round(_t.time() - t0 - ctx.cov["phase_s"]["prove"], 1)
+    t1 = _t.time()
     # the property itself on the implementation (support for the witness search; run on every run)
     out = run_oracle("c14.py", {"cases": ocases}) if ocases else {"failures": []}
     ctx.cov["oracle(impl)"] = {"systems": len(ocases), "failures": len(out["failures"])}
+    ctx.cov["phase_s"]["oracle"] = round(_t.time() - t1, 1)
     for f in out["failures"][:10]:
         found.append(witness(f))
     ctx.cov["rule"] = ("consistent systems generated from a model (domains with lengths or IUPAC sequences, strands, complexes in "
@@ -194,7 +204,24 @@ def witness(f):
                        (", ignore=" + repr(c["ignore"]) if c.get("ignore") else "") + ")"}
 
 
-PARTIAL = []
+PARTIAL = [
+    "reader_builds_full: for every abstract consistent system rendered to token trees in any declaration-respecting order the "
+    "result dictionary equals the system field by field.  Proved: the domains field of ANY well-shaped document "
+    "(C14_reader_builds_domains with the frame theorem C14_other_statements_leave_domains_alone); per statement, in any "
+    "good session: strands (name, class, listed domain names, elements are the registered domain singletons), reactions "
+    "(class, declared type, condensed/detailed filing, rate constant and units), kernel complexes (class, name, "
+    "concentration triple).  Not proved: sequence/structure of complexes in either notation incl. composite expansion, "
+    "macrostate and reaction members, the frame statements for the other fields, and that a consistent system is never "
+    "refused; the whole dictionary is compared with gen_pil.expected on every generated system, on the implementation by "
+    "the oracle and through the model by the correspondence",
+    "grammar_shape_full: every line the PEG interpreter returns on the regenerated PIL grammar satisfies line_okb (the hypothesis "
+    "of C14_reader_no_fault / C14_reader_classes / C14_failed_read_keeps_held); not proved: the model op answers BadShape for a "
+    "parsed line that violates it, so every document of every correspondence run checks it",
+    "reader_declared_only_full: a refused read raises a kind of the declared list (proved: the kind is none of the interpreter-"
+    "level fault kinds; the model-level kinds OutOfFuel / BadRequest / Unmodelled / UserInitError are not excluded by a theorem, "
+    "the correspondence treats the first three as disagreements)",
+    "lengths above sys.maxsize (len() raises OverflowError in CPython) are not modelled by Registry.obj_len",
+]
 
 
 def replay(data):
